@@ -94,6 +94,11 @@ CHECKS = {
          "Held on the executions observed: bases with constructs on and around the configured thresholds (nesting depth == limit, class LOC == max_loc, run length == min_duplicate_lines) plus the trigger project; edits: blank/comment insertion, trailing whitespace, consistent re-indentation, LF->CRLF, add/remove BOM, appended code, renaming of filler identifiers; evidence counts comparisons per edit kind.",
          "Trusted: edits are meaning-preserving on the generated files (no multi-line strings, renames touch only filler identifiers); header-sensitive linters only below line 12; DRY messages compared on occurrence count.",
          "DESIGN.md section 4 C13"),
+
+ "C20": ("runtime monitoring: command histories with file bytes recorded before/after every command, exit codes and stdout; offline checkers against (a) a key-path state model of the user's .thailint.yaml for init-config merges (plus threshold decoding on the staircase probe and byte-idempotence), (b) preset files accepted by every linter command, (c) a dict model with the documented value conversion for config set/get/reset incl. independent YAML/JSON reload",
+         "Held on the executions observed: generated existing configs (section subsets, hyphen/underscore, block/flow style, comments, banner look-alikes, CRLF, no final newline, document markers) x three init-config runs with presets; four preset files x 20 commands; set/get/reset histories with valid, invalid and YAML-special values over cfg.yaml and cfg.json; evidence counts merge runs, in-effect checks, accepted/rejected sets and get checks.",
+         "Trusted: yaml.safe_load / json.loads as independent parsers; Python literal syntax as the documented int/float conversion; validated keys as in src/config.py.",
+         "DESIGN.md section 4 C20"),
 }
 PENDING = {}
 props = [json.loads(l) for l in open(os.path.join(HERE, "properties.jsonl"))]
